@@ -232,18 +232,26 @@ pub struct WorkerTx { pub dummy: u8 }
 impl WorkerRx { #[verifier::external_body] pub fn drain(&self) -> (r: Drained) { unimplemented!() } }
 impl Drained { #[verifier::external_body] pub fn count(self) -> (r: usize) { unimplemented!() } }
 impl WorkerTx {
-    // flume Sender::send of a Close message: wakes one worker, which exits. A worker may only be told to exit after the stop
-    // signal is up (otherwise the supervising threads restart work)
+    // flume Sender::send into the BOUNDED worker channel blocks while the channel is full. P-NOBLOCK (C17): the thread that drops the
+    // database must never do that -- once the last worker has taken its Close nobody receives any more, and a send into the full
+    // channel never returns (the drop would hang and the directory lock would never be released)
     #[verifier::external_body]
     pub fn send(&self, m: WorkerMessage, Tracked(w): Tracked<&mut World>) -> (r: SendResult)
+        requires false, // [C17:P-NOBLOCK-drop-never-blocks-on-the-worker-channel]
+        ensures final(w).threads <= old(w).threads, *final(w) == (World { threads: final(w).threads, ..*old(w) }),
+    { unimplemented!() }
+    // flume Sender::try_send: never blocks; a Close that is accepted wakes one worker, which exits
+    #[verifier::external_body]
+    pub fn try_send(&self, m: WorkerMessage, Tracked(w): Tracked<&mut World>) -> (r: SendResult)
         ensures final(w).threads <= old(w).threads, *final(w) == (World { threads: final(w).threads, ..*old(w) }),
     { unimplemented!() }
 }
+impl SendResult { #[verifier::external_body] pub fn is_err(&self) -> (r: bool) { unimplemented!() } }
 pub struct WorkerPoolD { pub rx: WorkerRx, pub sender: WorkerTx }
 pub struct DatabaseInner { pub supervisor: SupervisorD, pub config: ConfigD, pub stop_signal: StopSignal, pub active_thread_counter: ThreadCounter, pub worker_pool: WorkerPoolD }
 
 //@extract src/db.rs :: Drop for DatabaseInner :: drop world inherent no_decreases props=C17
-//@world flush_manager.clear .clear remove_dir_all stop_signal.send active_thread_counter.load sender.send
+//@world flush_manager.clear .clear remove_dir_all stop_signal.send active_thread_counter.load sender.send sender.try_send
 //@contract
     ensures
         final(w).stop_sent, // [C17:stop-signal-raised]
